@@ -40,7 +40,7 @@ ASSUMPTIONS = [
 ]
 REACH = {t: ["versions_11", "op_truncate", "op_flip", "op_idsub", "op_seqsub", "op_random", "op_valid",
              "with_pending", "without_pending", "callback_accepted", "pending_completed_by_own_frame",
-             "pending_invalid_command", "pending_seq_wrong_id", "own_kind_reply_under_neighbouring_sequence", "fresh_command_ok", "undecodable_rejected",
+             "pending_invalid_command", "pending_seq_wrong_id", "own_kind_reply_under_neighbouring_sequence", "pending_command_ended_after_a_frame_took_its_slot", "fresh_command_ok", "undecodable_rejected",
              "unknown_id_rejected", "op_fc", "op_fc_truncate", "op_cancel_race"] for t in ("quick", "thorough")}
 SHARD_TIMEOUT = {"quick": 900, "thorough": 3600}
 
@@ -180,6 +180,8 @@ def run_shard(desc) -> Acc:
             pending["name"] = kind
             pending["id"] = C[kind][0]
 
+        nwait = [0]
+
         async def drop_pending():
             tk = pending["task"]
             if tk is not None and not tk.done():
@@ -273,7 +275,20 @@ def run_shard(desc) -> Acc:
                 elif ref is not None and ref[0] == pseq:
                     if decodes and ref[1] != pid:
                         acc.hit("pending_seq_wrong_id")
-                    # the slot under this sequence may have been consumed: start afresh
+                    # The slot under this sequence may have been consumed.  The command itself must still come to an
+                    # end - by its timeout at the latest - or nothing issued after it would ever be sent.
+                    nwait[0] += 1
+                    if nwait[0] % 3 == 0:
+                        import bellows.ezsp.protocol as proto_
+
+                        await asyncio.sleep(float(getattr(proto_, "EZSP_CMD_TIMEOUT", 10)) + 1.0)
+                        if not tk.done():
+                            acc.violation("C08/afterwards/pending-command-never-ended",
+                                          f"pending {kind} (seq {pseq}) was still pending a second after the command timeout, "
+                                          f"after frame {frame.hex()} arrived under its sequence number", case)
+                        else:
+                            tk.exception() if not tk.cancelled() else None
+                            acc.hit("pending_command_ended_after_a_frame_took_its_slot")
                     await drop_pending()
             # ---- callbacks
             if cbs:
